@@ -535,6 +535,11 @@ func (s *Server) Prepare(conf *ServerConfig) (err error) {
 
 	s.dnsProxy = dnsProxy
 
+	// The keys of the ClientID cache are request identifiers, which are only
+	// unique within a single proxy instance, so make sure that the entries of
+	// the previous instance don't outlive it.
+	s.clientIDCache.Clear()
+
 	s.setupAddrProc()
 
 	s.registerHandlers()
